@@ -166,6 +166,8 @@ def main():
     ap.add_argument("--tests", action="store_true")
     ap.add_argument("--jobs", type=int, default=14)
     ap.add_argument("--all-functions", action="store_true", help="mutate every function the check looked at, not only the obligation sites")
+    ap.add_argument("--functions", default="", help="comma separated qualified names: only these functions")
+    ap.add_argument("--tag", default="", help="write audit/mutants/<Cxx>.<tag>.json instead of <Cxx>.json")
     a = ap.parse_args()
     os.makedirs(os.path.join(HERE, "audit", "mutants"), exist_ok=True)
     for pid in a.pids:
@@ -177,6 +179,8 @@ def main():
             text = open(path).read()
             tree = ast.parse(text)
             for qual in sorted(quals):
+                if a.functions and qual not in a.functions.split(","):
+                    continue
                 fn = find_fn(tree, qual)
                 if not isinstance(fn, (ast.FunctionDef, ast.AsyncFunctionDef)):
                     continue
@@ -192,7 +196,7 @@ def main():
             jobs = [jobs[int(i * step)] for i in range(a.max)]
         with cf.ThreadPoolExecutor(a.jobs) as ex:
             results = list(ex.map(run_mutant, jobs))
-        json.dump(results, open(os.path.join(HERE, "audit", "mutants", f"{pid}.json"), "w"), indent=1)
+        json.dump(results, open(os.path.join(HERE, "audit", "mutants", f"{pid}{'.' + a.tag if a.tag else ''}.json"), "w"), indent=1)
         n = len(results)
         caught = sum(1 for r in results if r.get("check_exit") == 1)
         err = sum(1 for r in results if r.get("check_exit") == 2)
